@@ -2,6 +2,7 @@ import ActixModel.Util
 import ActixModel.Model.ClientDecode
 import ActixModel.Model.Client
 import ActixModel.Model.Pool
+import ActixModel.Model.ClientWorld
 /-
 Line-protocol driver for C17 (grammar: see `harness/src/props/c17.rs`).
 
@@ -11,17 +12,7 @@ concurrent batch), servers that write exactly the script's segments, leftover by
 reach the socket only after the client is done with the exchange, `.c` = FIN after the last byte.
 -/
 namespace ActixModel.Drv.C17
-open ActixModel.Util ActixModel.ClientDecode ActixModel.Client ActixModel.Pool
-
-structure Script where
-  pre : List Bytes
-  post : List Bytes
-  close : Bool
-
-inductive Op where
-  | req (auth : Nat) (o : ReqOpts) (mode : Mode) (s : Script)
-  | par (auths : List Nat)
-  | bad
+open ActixModel.Util ActixModel.ClientDecode ActixModel.Client ActixModel.Pool ActixModel.ClientWorld
 
 def parseSegs (s : String) : Option (List Bytes) :=
   if s == "-" || s == "" then some []
@@ -97,70 +88,16 @@ def showOutcome : Outcome → String
       | .disconnected => "disc" | .parseIo => "pio" | .parseHeader => "phdr"
       | .parseTooLarge => "ptoolarge" | .parseOther => "pother" | .timeout => "timeout")
 
-structure World where
-  pool : Pool := Pool.empty
-  now : Nat := 0
-  maxOpen : Nat := 0
-  maxInflight : Nat := 0
-  out : List String := []
-
-def World.see (w : World) (inflight : Nat) : World :=
-  { w with maxOpen := max w.maxOpen (openCount w.pool), maxInflight := max w.maxInflight inflight }
-
-def flatten (segs : List Bytes) : Bytes := segs.foldr (· ++ ·) []
-
-def stepReq (cfg : Cfg) (w : World) (auth : Nat) (o : ReqOpts) (mode : Mode) (s : Script) : World :=
-  let now := w.now + 1
-  let (pool, c, reused) := acquire cfg now auth w.pool
-  let w := ({ w with pool := pool, now := now }).see 1
-  let i := w.pool.leases.length - 1
-  let ex := exchange o mode (s.pre ++ s.post) s.close
-  let pool :=
-    if ex.released then
-      -- io back in the pool; whatever the server still wrote (and its FIN) is in the socket
-      let p := release now i true w.pool
-      touchConn c.id (fun c => { c with sock := flatten ex.unread, peerClosed := s.close }) p
-    else w.pool
-  let pool := dropLease i pool
-  let w := ({ w with pool := pool }).see 0
-  let tok := (if reused then "u" else "n") ++ showOutcome ex.outcome ++ ";o=" ++ toString (openCount pool)
-  { w with out := w.out ++ [tok] }
-
-/-- one wave of a concurrent batch: every member gets its permit and connection, all are in
-flight together, all complete (canned complete keep-alive responses) -/
-def stepWave (cfg : Cfg) (w : World) (auths : List Nat) : World × Nat × Nat :=
-  let now := w.now + 1
-  let (pool, nNew, nReused) := auths.foldl (fun (acc : Pool × Nat × Nat) a =>
-    let (p, _, reused) := acquire cfg now a acc.1
-    (p, if reused then acc.2.1 else acc.2.1 + 1, if reused then acc.2.2 + 1 else acc.2.2)) (w.pool, 0, 0)
-  let w := ({ w with pool := pool, now := now }).see auths.length
-  let pool := (List.range auths.length).foldl (fun p i => release now i true p) w.pool
-  let pool := { pool with leases := [] }
-  (({ w with pool := pool }).see 0, nNew, nReused)
-
-def chunksOf (n : Nat) : Nat → List Nat → List (List Nat)
-  | 0, _ => []
-  | _ + 1, [] => []
-  | fuel + 1, xs => xs.take n :: chunksOf n fuel (xs.drop n)
-
-def stepPar (cfg : Cfg) (w : World) (auths : List Nat) : World :=
-  let l := if cfg.limit = 0 then 1 else cfg.limit
-  let waves := chunksOf l auths.length auths
-  let (w, nNew, nReused) := waves.foldl (fun (acc : World × Nat × Nat) wave =>
-    let (w', a, b) := stepWave cfg acc.1 wave
-    (w', acc.2.1 + a, acc.2.2 + b)) (w, 0, 0)
-  let tok := "P" ++ toString nNew ++ "," ++ toString nReused ++ "," ++ toString auths.length ++
-    ";o=" ++ toString (openCount w.pool)
-  { w with out := w.out ++ [tok] }
+def showObs : Obs → String
+  | .req reused outcome o => (if reused then "u" else "n") ++ showOutcome outcome ++ ";o=" ++ toString o
+  | .par nNew nReused total o =>
+    "P" ++ toString nNew ++ "," ++ toString nReused ++ "," ++ toString total ++ ";o=" ++ toString o
+  | .bad => "bad-op"
 
 def run (line : String) : String :=
   let c := parseCase line
   let cfg : Cfg := ⟨effectiveLimit c.limit, if c.ka0 then 0 else 15000, if c.life0 then 0 else 75000⟩
-  let w := c.ops.foldl (fun (w : World) op =>
-    match op with
-    | .bad => { w with out := w.out ++ ["bad-op"] }
-    | .req a o m s => stepReq cfg w a o m s
-    | .par auths => stepPar cfg w auths) {}
-  joinWith " " (w.out ++ ["mo=" ++ toString w.maxOpen ++ ",mi=" ++ toString w.maxInflight])
+  let w := runOps cfg c.ops
+  joinWith " " (w.obs.map showObs ++ ["mo=" ++ toString w.maxOpen ++ ",mi=" ++ toString w.maxInflight])
 
 end ActixModel.Drv.C17
